@@ -262,8 +262,10 @@ def write_evidence(pid, tier, seed, mod, results, violations, known_hits, infra,
         wall_s=round(wall, 2),
         violations=len(violations),
     )
-    os.makedirs(os.path.join(ROOT, 'evidence'), exist_ok=True)
-    with open(os.path.join(ROOT, 'evidence', pid + '.json'), 'w') as f:
+    # (development runs against a scratch tree keep their evidence out of the committed directory)
+    evdir = os.environ.get('ZVERIF_EVIDENCE_DIR') or os.path.join(ROOT, 'evidence')
+    os.makedirs(evdir, exist_ok=True)
+    with open(os.path.join(evdir, pid + '.json'), 'w') as f:
         json.dump(ev, f, indent=1, sort_keys=True)
 
 
